@@ -171,6 +171,19 @@ def checkList (name : String) (conf : Nat → Bool) (model pre obs : List Host) 
       if obs.filter (fun h => !conf h.id && pre.contains h) == pre.filter (fun h => !conf h.id && obs.contains h) then none
       else some ("reordered@" ++ name)
 
+/-- op `burst`: the calls applied to the model in op-line order; the burst then waits for its `settle` line -/
+def St.burst (s : St) (calls : List String) : St × String :=
+    if calls.isEmpty then (s, "bad-op") else
+    if s.alias then (s, "bad-op") else
+    let cs : List (String × Nat) := calls.map (fun w => match w.splitOn ":" with | [c, i] => (c, nat i) | _ => ("", 0))
+    if cs.any (fun c => evOf c.1 == none || (s.host? c.2).isNone) then (s, "bad-op") else
+    let p := s.t.pol
+    let s' := cs.foldl (fun (acc : St × Bool) c => match acc.1.host? c.2 with
+        | some h => let n := acc.1.call c.1 h
+                    (n, acc.2 || (n.t.hosts.map (·.id) != acc.1.t.hosts.map (·.id)))
+        | none => acc) (s, false)
+    ({ s'.1 with epoch := s'.1.epoch + 1, pending := some ⟨p.l0, p.l1, p.l2, s.t.hosts, cs, s'.2⟩ }, "ok")
+
 /-- ops
   reset <rr|dc|rack> <ta 0|1> <localDC> <localRack> <shuffle> <nonlocal> <partitionerSet>
   sessks <ks>                                      (right after reset) the session keyspace is <ks>
@@ -199,6 +212,8 @@ def checkList (name : String) (conf : Nat → Bool) (model pre obs : List Host) 
                                                    `excluded` (nothing done) under an excluded condition of `offer` or
                                                    the counter bound
   burst <call>:<id> ...                            the calls run CONCURRENTLY (one goroutine each) → ok
+  gburst <gate id> <call>:<id> ...                 the same under a forced schedule: every call is parked where it first
+                                                   reads the address of host <gate id> until all calls are in progress → ok
   settle L0=.. L1=.. L2=.. [T=..]                  SPEC-BACKED: the lists observed after the burst → ok | lost/phantom/dup/reordered -/
 def step (s : St) (ws : List String) : St × String :=
   let bump (s : St) : St := { s with epoch := s.epoch + 1 }
@@ -236,16 +251,13 @@ def step (s : St) (ws : List String) : St × String :=
         let r := s.t.nextN s.up sl.it 1000
         let sl' := { sl with it := r.2.1, broken := r.2.2.2 == some Next.panic }
         ({ s with t := r.1, slots := sl' :: s.slots.filter (fun x => x.id != sl.id) }, s.specOffer)
-  | "burst" :: calls =>
-    if s.alias then (s, "bad-op") else
-    let cs : List (String × Nat) := calls.map (fun w => match w.splitOn ":" with | [c, i] => (c, nat i) | _ => ("", 0))
-    if cs.any (fun c => evOf c.1 == none || (s.host? c.2).isNone) then (s, "bad-op") else
-    let p := s.t.pol
-    let s' := cs.foldl (fun (acc : St × Bool) c => match acc.1.host? c.2 with
-        | some h => let n := acc.1.call c.1 h
-                    (n, acc.2 || (n.t.hosts.map (·.id) != acc.1.t.hosts.map (·.id)))
-        | none => acc) (s, false)
-    (bump { s'.1 with pending := some ⟨p.l0, p.l1, p.l2, s.t.hosts, cs, s'.2⟩ }, "ok")
+  | "gburst" :: gate :: calls =>
+    -- a GATED burst: the same calls, run under the schedule "every call parked at its first read of host <gate>
+    -- until all are in progress"; the model's answer does not depend on the schedule (`C11_cow_concurrent_linearizable`)
+    if (s.host? (nat gate)).isNone || calls.isEmpty || calls.any (fun w => w.splitOn ":" == ["add", gate] ||
+        w.splitOn ":" == ["remove", gate] || w.splitOn ":" == ["hup", gate] || w.splitOn ":" == ["hdown", gate])
+    then (s, "bad-op") else s.burst calls
+  | "burst" :: calls => s.burst calls
   | "settle" :: kvs =>
     match s.pending with
     | none => (s, "bad-op")
